@@ -397,7 +397,7 @@ func genFacts() {
 	rb := vc.fn("VirtualTable.Rollback")
 	f["rollbackRestoresSnapshot"] = leanBool(vc.text(rb.Body) == "{ dbg(\"ROLLBACK\\n\") if c.txStart != nil { c.Tree.Root.Cancel() c.Tree.Root = c.txStart c.txStart = nil } return nil }")
 	cm := vc.fn("VirtualTable.Commit")
-	f["commitKeepsSnapshotOnError"] = leanBool(vc.text(cm.Body) == "{ dbg(\"COMMIT\\n\") _, err := c.Tree.Root.Commit(ctx) if err != nil { return fmt.Errorf(\"commit tree: %w\", err) } c.txStart = nil return nil }")
+	f["commitKeepsSnapshotOnError"] = leanBool(vc.text(cm.Body) == "{ dbg(\"COMMIT\\n\") c.Tree.Root.SetCreated(time.Now()) _, err := c.Tree.Root.Commit(ctx) if err != nil { return fmt.Errorf(\"commit tree: %w\", err) } c.txStart = nil return nil }")
 	bg := vc.fn("VirtualTable.Begin")
 	f["beginClonesTree"] = leanBool(strings.Contains(vc.text(bg.Body), "c.txStart, err = c.Tree.Root.Clone(ctx)") && strings.Contains(vc.text(bg.Body), "if c.txStart != nil { return errors.New(\"transaction already in progress\") }"))
 	// ---- connection attributes (C05, C15)
@@ -492,8 +492,15 @@ func genFacts() {
 	keepFn := strings.Contains(kvs.text(gh.Body), "if ls, ok := link.(string); ok && !removed { delete(candidateBlocks, ls) }")
 	f["vacuumKeepsReachable"] = leanBool(keepOK && loopOK && keepFn)
 	ght := kvs.text(gh.Body)
-	f["vacuumKeepsListedCurrent"] = leanBool(strings.Contains(ght, "current, err := s.listRoots(ctx) if err != nil { return nil, nil, fmt.Errorf(\"list roots: %w\", err) } for _, name := range current { if _, ok := rootCacheByName[name]; ok { continue }") &&
-		strings.Contains(ght, "kept, err := crdt.Load(ctx, s.crdt.Config, &name, *root) if err != nil { return nil, nil, err } if err := keep(kept.Mast); err != nil { return nil, nil, err } } nodes = make([]string, 0, len(candidateBlocks))"))
+	f["vacuumKeepsListedCurrent"] = leanBool(strings.Contains(ght, "current, err := s.listRoots(ctx) if err != nil { return nil, nil, fmt.Errorf(\"list roots: %w\", err) } superseded, err := s.listMergedRoots(ctx) if err != nil { return nil, nil, fmt.Errorf(\"list merged roots: %w\", err) } for _, name := range append(current, superseded...) { if _, ok := rootCacheByName[name]; ok { continue }") &&
+		strings.Contains(ght, "kept, err := crdt.Load(ctx, loadConfig, &name, *root) if err != nil { return nil, nil, err } if err := keep(kept.Mast); err != nil { return nil, nil, err } } nodes = make([]string, 0, len(candidateBlocks))"))
+	f["vacuumWalksBypassCache"] = leanBool(strings.Contains(ght, "loadConfig := s.crdt.Config loadConfig.NodeCache = nil") && !strings.Contains(ght, "crdt.Load(ctx, s.crdt.Config,") && strings.Count(ght, "crdt.Load(ctx, loadConfig,") == 4)
+	{
+		vcm := vc.text(vc.fn("VirtualTable.Commit").Body)
+		f["versionsDatedAtCommit"] = leanBool(strings.Contains(vcm, "c.Tree.Root.SetCreated(time.Now()) _, err := c.Tree.Root.Commit(ctx)") &&
+			strings.Contains(vc.text(vc.fn("Vacuum").Body), "db.SetCreated(time.Now()) _, err = db.Commit(ctx)") &&
+			kvs.text(kvs.fn("DB.SetCreated").Body) == "{ s.crdt.Created = &when }")
+	}
 	vacT := vc.text(vc.fn("Vacuum").Body)
 	f["vacuumRepointsSnapshot"] = leanBool(strings.Contains(vacT, "table.Tree.Root = db db = nil if table.txStart != nil { snapshot, err := table.Tree.Root.Clone(ctx) if err != nil { return fmt.Errorf(\"clone: %w\", err) } table.txStart.Cancel() table.txStart = snapshot } err = kv.DeleteHistoricVersions(ctx, table.Tree.Root, beforeTime)"))
 	rtT := kvs.text(kvs.fn("DB.RemoveTombstones").Body)
